@@ -253,6 +253,21 @@ class Ledger(metaclass=LedgerRegistry):
         return self.db.get_address_count(**constraints)
 
     async def get_spendable_utxos(self, amount: int, funding_accounts: Optional[Iterable['Account']], min_amount=1):
+        # the writer thread commits the reservation even if the awaiting task is cancelled meanwhile:
+        # let select+reserve run to its end and hand the outputs back before passing the cancellation on
+        reserving = asyncio.ensure_future(self._select_and_reserve_utxos(amount, funding_accounts, min_amount))
+        try:
+            return await asyncio.shield(reserving)
+        except asyncio.CancelledError:
+            try:
+                spendables = await reserving
+            except Exception:  # pylint: disable=broad-except
+                spendables = None   # nothing was reserved; the cancellation is what the caller must see
+            if spendables:
+                await self.release_outputs([s.txo for s in spendables])
+            raise
+
+    async def _select_and_reserve_utxos(self, amount: int, funding_accounts, min_amount=1):
         min_amount = min(amount // 10, min_amount)
         fee = Output.pay_pubkey_hash(COIN, NULL_HASH32).get_fee(self)
         selector = CoinSelector(amount, fee)
